@@ -24,6 +24,10 @@ func dump(b bo.Box, depth int) {
 }
 
 func main() {
+	if os.Args[1] == "split" {
+		splitMain(os.Args[2:])
+		return
+	}
 	html := os.Args[2]
 	fonts := render.NewFonts(os.Args[1])
 	pages, err := render.Layout(html, nil, false, true, fonts)
